@@ -37,13 +37,20 @@ Definition grow (c : Z) : Z := if c =? 0 then LIST_CHUNK else (c * 3) / 2.
 
 Inductive cres := COk (t : ctab) | CErr (e : Z).
 
+(* since /repo a707034: ADFI_read_node_header refuses num_sub_nodes > entries_for_sub_nodes, and
+   ADFI_read_sub_node_table refuses a table whose length on disk is not entries_for_sub_nodes *)
+Definition header_bad (t : ctab) : bool := num t >? cap t.
+Definition table_bad (t : ctab) : bool := negb (Z.of_nat (length (ents t)) =? cap t).
+
 (* ADFI_add_2_sub_node_table; nm = the child's header name (32 bytes); None = outside the model (2^24 entries) *)
 Definition add_child (t : ctab) (nm : name) (child : ptr) : option cres :=
-  if cap t <=? num t then
+  if header_bad t then Some (CErr SUB_NODE_TABLE_ENTRIES_BAD)
+  else if cap t <=? num t then
     if FLOAT_EXACT <=? cap t then None
     else
       let ncap := grow (cap t) in
       if ncap <=? num t then Some (CErr SUB_NODE_TABLE_ENTRIES_BAD)
+      else if (0 <? cap t) && table_bad t then Some (CErr SUB_NODE_TABLE_ENTRIES_BAD)   (* the old table is read *)
       else
         (* the old table (cap entries) read into the new array, [num, ncap) blanked, then entry [num] written *)
         let kept := firstn (Z.to_nat (num t)) (ents t) in
@@ -63,6 +70,7 @@ Fixpoint find_ptr (l : list centry) (n : nat) (child : ptr) {struct n} : option 
 
 (* ADFI_delete_from_sub_node_table *)
 Definition del_child (t : ctab) (child : ptr) : cres :=
+  if header_bad t || table_bad t then CErr SUB_NODE_TABLE_ENTRIES_BAD else
   match find_ptr (ents t) (Z.to_nat (num t)) child with
   | None => CErr SUB_NODE_TABLE_ENTRIES_BAD
   | Some i =>
@@ -94,7 +102,9 @@ Fixpoint find_name (l : list centry) (n : nat) (new : list Z) {struct n} : optio
   | _, _ => None
   end.
 Definition check_child (t : ctab) (new : list Z) : option (nat * centry) :=
-  if num t =? 0 then None
+  if header_bad t then None                       (* an error return: the caller gives up, nothing is found *)
+  else if num t =? 0 then None
+  else if (0 <? cap t) && table_bad t then None
   else match find_name (ents t) (Z.to_nat (num t)) new with
        | Some i => Some (i, nth i (ents t) (unused_name, (0, 0)))
        | None => None
